@@ -992,6 +992,18 @@ pub async fn commit_compaction(
     // If we aren't using stable row ids, then we need to remap indices.
     let needs_remapping = !dataset.manifest.uses_stable_row_ids() && !options.defer_index_remap;
 
+    let mut completed_tasks = completed_tasks;
+    if dataset.manifest.uses_stable_row_ids() && options.defer_index_remap {
+        // With stable row ids the rewritten fragments have no ids yet (rewrite_files reserves them
+        // only for address-style ids). The fragment reuse index and the index fragment bitmaps
+        // built below record these ids, so they must be reserved before, not left at 0.
+        let new_fragments = completed_tasks
+            .iter_mut()
+            .flat_map(|task| task.new_fragments.iter_mut())
+            .collect::<Vec<_>>();
+        reserve_fragment_ids(dataset, new_fragments.into_iter()).await?;
+    }
+
     let mut rewrite_groups = Vec::with_capacity(completed_tasks.len());
     let mut metrics = CompactionMetrics::default();
 
